@@ -62,8 +62,13 @@ def generate(rng, tier):
         r0 = rng.choice([0.0, drr])
         dr = [r0 + j * drr for j in range(nr)]
         mat = L.material(rng)
+        cut_ = dr[-1] + 1.0 if i < 9 else rng.choice([dr[1], dr[-1] * 0.6, dr[-1] + 1.0])
+        if i >= 9 and i % 8 == 5:       # a single r point inside the filter window (Rmin equal to the cutoff), with and without the correction
+            dr = [drr * (j + 1) for j in range(nr)]
+            r0 = drr
+            cut_ = dr[0] if (i // 8) % 2 else 0.5 * (dr[0] + dr[1])
         cases.append({"q": q, "sq": [float(v) for v in sq], "dr": dr, "mat": mat, "fn": i % 3, "lowq": bool((i // 3) % 2) if i >= 9 else bool(i % 2),
-                      "cutoff": (dr[-1] + 1.0 if i < 9 else rng.choice([dr[1], dr[-1] * 0.6, dr[-1] + 1.0])), "ops": list(seq),
+                      "cutoff": cut_, "ops": list(seq),
                       "lorch_flag": bool(i % 2),
                       "gq": rng.choice([None, None, (None, q[-1] + 0.37), (q[0] - 0.05, q[-1] + 2.0), (None, q[-1]),
                                         # set on the instance after the merged data exist, cutting into them: the workflow steps act on the merged data as stored
